@@ -30,7 +30,7 @@ def capture_failed(res):
 def judge(ctx, res, w, replay_saved=True):
     from playback.tape_recorder import TapeRecorder
     from playback.exceptions import RecordingKeyError
-    fin = res.spy.finalisation()
+    fin = res.spy.finalisation(since=res.log_start)
     ctx.count('recordings_created', len(fin))
     for oid, f in fin.items():
         total = f['save'] + f['abort']
@@ -85,21 +85,45 @@ def run(ctx):
     idx = 0
     for pi, prog in enumerate(progs):
         pls = fr.all_placements(prog, pairs=True, max_pairs=30 if ctx.quick else 500, rng=random.Random(pi))
-        for faults in pls:
-            idx += 1
-            if not ctx.mine(idx):
-                continue
-            cfg = {'extractor': rng.choice([None, None, 'ok', 'raises', 'junk_pairs']), 'fail_save': rng.random() < 0.15,
-                   'rate': rng.choice([None, None, None, 0, 0.5]), 'kind': rng.choice(['memory', 'memory', 'file', 's3'])}
-            res = fr.execute(prog, faults, with_twin=False, **cfg)
-            try:
-                w = {'gen_seed': prog['gen_seed'], 'program': describe(prog), 'faults': fr.faults_json(faults), 'config': cfg}
-                ctx.case({'p': prog['gen_seed'], 'f': fr.faults_json(faults), 'c': cfg}, nontrivial=any(e[0] == 'create' for e in res.spy_events))
-                for _, k in res.live.fault_log:
-                    ctx.count('fault_' + k)
-                judge(ctx, res, w)
-            finally:
-                fr.close(res)
+        # every second program runs all its placements one after the other on ONE recorder (same thread): the property holds
+        # for every recording the recorder starts, whatever happened in earlier runs (interrupts, discards, failed saves)
+        session = None
+        if pi % 2 == 0:
+            from playback.tape_recorder import TapeRecorder
+            from vlib.cassettes import open_box
+            from vlib.spies import SpyCassette, SpyRandom
+            cm = open_box(rng.choice(['memory', 'memory', 'file', 's3']))
+            box = cm.__enter__()
+            spy = SpyCassette(box.cassette)
+            rec = TapeRecorder(spy)
+            rec._random = SpyRandom(5)
+            rec.enable_recording()
+            session = (cm, box, spy, rec)
+        try:
+            for faults in pls:
+                idx += 1
+                if not ctx.mine(idx):
+                    continue
+                cfg = {'extractor': rng.choice([None, None, 'ok', 'raises', 'junk_pairs']), 'fail_save': rng.random() < 0.15,
+                       'rate': rng.choice([None, None, None, 0, 0.5])}
+                if session is None:
+                    cfg['kind'] = rng.choice(['memory', 'memory', 'file', 's3'])
+                    res = fr.execute(prog, faults, with_twin=False, **cfg)
+                else:
+                    res = fr.execute(prog, faults, with_twin=False, recorder=session[3], spy=session[2], box=session[1], **cfg)
+                    ctx.count('runs_on_a_recorder_with_history')
+                try:
+                    w = {'gen_seed': prog['gen_seed'], 'program': describe(prog), 'faults': fr.faults_json(faults), 'config': cfg,
+                         'shared_recorder': session is not None}
+                    ctx.case({'p': prog['gen_seed'], 'f': fr.faults_json(faults), 'c': cfg}, nontrivial=any(e[0] == 'create' for e in res.spy_events))
+                    for _, k in res.live.fault_log:
+                        ctx.count('fault_' + k)
+                    judge(ctx, res, w)
+                finally:
+                    fr.close(res)
+        finally:
+            if session is not None:
+                session[0].__exit__(None, None, None)
     ctx.sample({'program': describe(progs[0]), 'example_placement': fr.faults_json(fr.all_placements(progs[0], pairs=False)[1])})
     if not ctx.counters.get('finalisations_checked'):
         ctx.inconclusive('no finalisation was observed')
